@@ -1170,7 +1170,17 @@ def check_negative_positions(idx, run):
     run.extra["validators_sensitive_to_raw_negative_index"] = sorted(fooled)
 
 
+
+GUARDED = [
+    ("psyclone.psyir.nodes.node.ChildrenList", "_validate_item"),
+    ("psyclone.psyir.nodes.node.ChildrenList", "_check_is_orphan"),
+    ("psyclone.psyir.nodes.node.Node", "replace_with"),
+    ("psyclone.psyir.nodes.node.Node", "detach"),
+]
+
 def check(idx, run):
+    from sa.guards import check_guards
+    check_guards(idx, run, "C14.R6", GUARDED)
     run.explanation = (
         "Each ChildrenList mutator is abstractly interpreted into an event "
         "sequence (validate(pos,item) / orphan / unlink / list-op / link / "
